@@ -17,7 +17,7 @@ import time
 from .. import core, tlaval
 from ..core import Check, MachineryError, run_tlc, scratch, PY, VERIF
 
-NCASE = 6
+NCASE = 8
 WORKER_EVS = ["WLog", "WMkDir", "WExec", "WMarker", "WLogOk", "WResBegin", "WResEnd", "WErr"]
 ACT2EV = {"PHeaderEnd": "HeaderEnd", "PParse": "ParseOk", "PScan": "Scan", "PPoolDone": "PoolDone", "PLoad": "Load",
           "PStartFresh": "HeaderBegin"}
@@ -46,7 +46,7 @@ def scenarios_systematic(tier, rng):
     scs = []
     kinds = ["list", "tuple", "empty_tuple"]
     procs = [4, 8, 16]
-    failsets = [[], [1], [0, 3], [2, 4, 5], [0, 1, 2, 3, 4, 5], [5]]
+    failsets = [[], [1], [0, 3], [2, 4, 5, 7], [0, 1, 2, 3, 4, 5, 6, 7], [6]]
     n = 0
 
     def add(kills, fail, kind, p, incs=None, pool="pathos", extra_inc=0):
@@ -56,7 +56,7 @@ def scenarios_systematic(tier, rng):
         scs.append({"id": "s%04d" % n, "fail": fail, "kind": kind, "procs": p, "pool": pool, "kills": kills,
                     "incs": incs or (len(kills) + 1 + extra_inc), "delays": delays, "origin": "systematic"})
     # single kill after every worker step of a few / all cases
-    cases = [0, 2, 5] if tier == "quick" else list(range(NCASE))
+    cases = [0, 3, 7] if tier == "quick" else list(range(NCASE))
     i = 0
     for ev in WORKER_EVS:
         for c in cases:
@@ -170,6 +170,11 @@ def direct_clauses(t):
     ev = t["events"]
     fail = set(t["fail"])
     base = {"kind": t["kind"], "pool": t.get("pool", "pathos")}
+    # the restarted study works on the grid of the original study
+    ph = sorted({e["c"] for e in ev if isinstance(e.get("c"), int) and not (0 <= e["c"] < NCASE)})
+    phd = sorted({d for e in ev if e["ev"] in ("Crash", "End") for d in e.get("phantom_dirs", [])})
+    if ph or phd:
+        out.append((dict(base, clause="same_grid"), "the study worked on cases %s / created directories %s that are not in the uninterrupted study's grid" % (ph, phd[:3])))
     # restart completes
     for i, e in enumerate(ev):
         if e["ev"] == "Raised":
@@ -194,6 +199,9 @@ def direct_clauses(t):
     fins = [e for e in ev if e["ev"] == "Finish"]
     for fin in fins:
         recs = fin["out"]
+        for r in recs:
+            if r["val"] == "Phantom":
+                out.append((dict(base, clause="same_grid"), "incarnation %d reports case %d that is not part of the uninterrupted study's grid" % (fin["inc"], r["case"])))
         for c in range(NCASE):
             mine = [r for r in recs if r["case"] == c]
             if len(mine) != 1:
@@ -273,7 +281,12 @@ def run(tier, seed):
     ck.notes["real_runs_wall_s"] = round(time.time() - t0, 1)
     ck.notes["real_incarnations"] = sum(len(t["statuses"]) for t in traces)
     ck.notes["real_sigkills"] = sum(t["statuses"].count("killed") for t in traces)
-    verd = validate_traces(ck, traces)
+    off_grid = {i for i, t in enumerate(traces) if any(isinstance(e.get("c"), int) and not (0 <= e["c"] < NCASE) for e in t["events"])}
+    verd = validate_traces(ck, [t for i, t in enumerate(traces) if i not in off_grid])
+    keep = [i for i in range(len(traces)) if i not in off_grid]
+    verd = {keep[k]: v for k, v in verd.items()}
+    for i in off_grid:
+        verd[i] = {"accepted": False, "at": 0, "len": len(traces[i]["events"]) + 1, "off_grid": True}
     nacc = 0
     for i, t in enumerate(traces):
         kills = tuple((k["inc"], k["ev"], k.get("c")) for k in t["kills"])
@@ -335,7 +348,7 @@ def run(tier, seed):
                       "simulation behaviours; distinct_nontrivial counts distinct scenarios with at least one SIGKILL or failing case")
     ck.cov["exhaustive"] = False
     ck.assumptions += ["SIGKILL of the whole process group models 'process killed'; a kill inside np.savez is emulated by a truncated "
-                       "archive that exists before the real write", "grid 3x2 cases; pool sizes 4/8/16; pathos pool (the stdlib-pool fallback cannot pickle the local worker closure at all - it never runs a study, interrupted or not - and is outside this check)",
+                       "archive that exists before the real write", "grid 4x2 cases, must_include values in exponent notation / negative; pool sizes 4/8/16; pathos pool (the stdlib-pool fallback cannot pickle the local worker closure at all - it never runs a study, interrupted or not - and is outside this check)",
                        "file-operation proxies are injected into the module namespace at run time (no change to /repo)"]
     return ck.finish()
 
